@@ -325,7 +325,23 @@ fn exec_c05(t: &C05Trace, out: &mut Outcome<C05Trace>) {
     if let Some(h) = &t.huge {
         let bl = h.block_len.min(BLOCK.len());
         let ll = h.last_len.min(BLOCK.len());
-        let expect = h.blocks as u128 * (varint_len(bl) + bl) as u128 + (varint_len(ll) + ll) as u128;
+        // length of one block as the real (unbounded) serialiser produces it — relative, like
+        // every other yardstick of this scenario; the arithmetic is only the multiplication
+        let one = |n: usize| -> Option<u128> {
+            match sut::call(|| postcard::to_allocvec(&BytesOf(&BLOCK[..n]))) {
+                Ok(Ok(v)) => Some(v.len() as u128),
+                _ => None,
+            }
+        };
+        let (per, last) = match (one(bl), one(ll)) {
+            (Some(a), Some(b)) => (a, b),
+            _ => {
+                out.skipped = Some("workload_unencodable");
+                return;
+            }
+        };
+        let _ = varint_len(0);
+        let expect = h.blocks as u128 * per + last;
         let r = sut::call(|| postcard::experimental::serialized_size(&Blocks(h)));
         out.evals += 1;
         out.probe(p::HUGE_SIZE);
@@ -522,8 +538,11 @@ fn exec_c05(t: &C05Trace, out: &mut Outcome<C05Trace>) {
                 if c >= l {
                     match r {
                         Ok((off, bytes)) => {
-                            if off != 0 {
-                                fail!("front-of-buffer", fr, st, c, "returned slice starts at offset {off} of the buffer, not at its front");
+                            // (an empty output is at the front wherever its pointer is; and never
+                            // print a raw address difference: only in-buffer offsets are meaningful)
+                            if off != 0 && !bytes.is_empty() {
+                                let shown = if off > 0 && (off as usize) <= c { format!("offset {off}") } else { "an address outside the buffer".to_string() };
+                                fail!("front-of-buffer", fr, st, c, "returned slice starts at {shown}, not at the front of the buffer");
                             }
                             if bytes != u {
                                 fail!(
